@@ -38,6 +38,7 @@ var (
 	errExpectedMoreArguments    = errors.New("closed argument reader when there may be more data available to read")
 	errNoMoreFragments          = errors.New("no more fragments")
 	errUnknownChecksumType      = errors.New("peer sent an unknown checksum type")
+	errNoChunksInFragment       = errors.New("peer sent a fragment without any chunks")
 )
 
 type readableFragment struct {
@@ -302,6 +303,11 @@ func (r *fragmentingReader) recvAndParseNextFragment(initial bool) error {
 	if bytes.Compare(r.curFragment.checksum, localChecksum) != 0 {
 		r.err = errMismatchedChecksums
 		return r.err
+	}
+
+	// Every fragment must carry at least one chunk.
+	if len(r.remainingChunks) == 0 {
+		return errNoChunksInFragment
 	}
 
 	// Pull out the first chunk to act as the current chunk
